@@ -41,7 +41,7 @@ def rv(r):
     return str(r)
 
 def main():
-    repo = "/repo"
+    repo = sys.argv[2] if len(sys.argv) > 2 else "/repo"
     name = sys.argv[1]
     fs, ps, meta = facts.load(repo)
     P = mir.Program(fs)
